@@ -129,3 +129,13 @@ Lemma example_no_template :
                 f_now := false; f_embed := false |} in
   snd (run the_code c w_inputs_plain fs_empty) = NoTemplate.
 Proof. vm_compute. reflexivity. Qed.
+
+(* two custom templates with the same basename in different sub-directories are both listed *)
+Definition w_nested_dir : list tfile :=
+  [w_tf 65 true (Some CAny);
+   {| tf_name := [109; 47; 98]; tf_path := [[112]; [109]; [98]]; tf_j2 := true; tf_cls := None |};
+   {| tf_name := [115; 47; 98]; tf_path := [[112]; [115]; [98]]; tf_j2 := true; tf_cls := None |}].
+Lemma example_same_basename_both_listed :
+  let c := w_cfg SNever false (Some w_nested_dir) None in
+  path_in [[112]; [109]; [98]] (listed c w_inputs_plain) = true /\ path_in [[112]; [115]; [98]] (listed c w_inputs_plain) = true.
+Proof. vm_compute. split; reflexivity. Qed.
